@@ -283,6 +283,14 @@ theorem scanLoop_argsLay {tcs : List (Bytes × List Cell)} {text : Bytes} (h : A
     simp only [List.length_append, List.append_assoc, allCells]
     congr 2; omega
 
+/-- the checker's recursion bound covers the text from `src` on -/
+theorem lookBackFuel_ge (src : Bytes) (recent : Option Bytes) :
+    ∃ lf, lookBackFuel src recent = lf + 2 ∧ src.length ≤ lf ∧ (∀ r, recent = some r → r.length ≤ lf) := by
+  refine ⟨lookBackFuel src recent - 2, ?_, ?_, ?_⟩
+  · unfold lookBackFuel; omega
+  · unfold lookBackFuel; omega
+  · intro r hr; subst hr; unfold lookBackFuel; simp only; omega
+
 /-- one turn of the checker's loop -/
 theorem countLoop_step (t : Bytes) (cs : List Cell) (rest body : Bytes) (f : Nat) (recent : Option Bytes)
     (num : Int) (ht : Arg11 t cs) (hs : Sep rest)
@@ -293,10 +301,12 @@ theorem countLoop_step (t : Bytes) (cs : List Cell) (rest body : Bytes) (f : Nat
       C11.countLoop f (some body) (some (t ++ rest)) (num + cs.length) := by
   obtain ⟨h0, _, hn0, _, _, _, h47, _⟩ := ht.start
   have hhd : hd (t ++ rest) = hd t := hd_append_of_ne_nil _ _ h0
-  obtain ⟨r, hr, hsrc, hskipped, _⟩ := ht.skip rest ((t ++ rest).length + 1) 0 recent true false hs
-    (by simp only [List.length_append]; omega)
+  obtain ⟨lf, hlf, hlf1, _⟩ := lookBackFuel_ge (t ++ rest) recent
+  obtain ⟨r, hr, hsrc, hskipped, _⟩ := ht.skip rest (lf + 1) 0 recent true false hs
+    (by simp only [List.length_append] at hlf1; omega)
+  have hr : C11.skipNextPrintedArg (lf + 2) (t ++ rest) 0 recent true false = .ok r := hr
   conv => lhs; unfold C11.countLoop
-  simp only [hhd, ne_eq, hn0, not_false_eq_true, h47, and_self, ↓reduceIte, hr, bind, Except.bind, hsrc]
+  simp only [hlf, hhd, ne_eq, hn0, not_false_eq_true, h47, and_self, ↓reduceIte, hr, bind, Except.bind, hsrc]
   have hnot : ¬ (body.length ≥ (t ++ rest).length) := by omega
   by_cases h0' : hd (skipSpace rest) = 0
   · simp only [h0', ne_eq, not_true_eq_false, ↓reduceIte, pure, Except.pure] at hsk ⊢
